@@ -574,6 +574,28 @@ func checkMirrorHelpers(prog *core.Program, r3 *core.RuleRun) {
 	} else {
 		r3.Undecided("mirror.NewIPv4HeaderTpl", token.NoPos, "function not found")
 	}
+	// the raw-socket send: the very slice it is given, to the address the connection was opened for, blocking (flags 0):
+	// a non-blocking send turns a momentarily full socket buffer into an error, and the mirror loops end on any error
+	if fn := prog.Method("mirror", "Conn", "Send"); fn != nil {
+		n := 0
+		allInstrs(fn, func(ins ssa.Instruction) {
+			c, ok := ins.(*ssa.Call)
+			if !ok || calleeName(c) != "syscall.Sendto" {
+				return
+			}
+			n++
+			args := c.Common().Args
+			flags, isC := ssaConstInt(args[2])
+			_, isParam := args[1].(*ssa.Parameter)
+			r3.Check(isC && flags == 0 && isParam && fieldLoadName(args[0]) == "fd" && fieldLoadName(args[3]) == "raddr", "mirror.Conn.Send", c.Pos(), "Sendto(fd, b, 0, raddr)",
+				fmt.Sprintf("the raw-socket send is not a plain blocking send of the given slice to the connection's address (flags=%v): with MSG_DONTWAIT a full send buffer makes Send fail, the mirror loop returns and nothing is mirrored any more", flags))
+		})
+		if n == 0 {
+			r3.Undecided("mirror.Conn.Send", fn.Pos(), "no Sendto call found")
+		}
+	} else {
+		r3.Undecided("mirror.Conn.Send", token.NoPos, "method not found")
+	}
 	// the UDP source/destination ports of the template: destination = the configured port
 	pk := prog.Pkg("mirror")
 	if pk != nil {
